@@ -632,7 +632,7 @@ func (pr *pqRunner) oracleC12(base pqCase, expr string, nodes []promParser.Node,
 				}
 				if l, ok := deadLabel(j.Src); ok {
 					anyFlagged = true
-					if !mustHave(many, l) {
+					if k3Label(b, many, l) {
 						k3 = true
 					}
 				} else {
@@ -668,6 +668,48 @@ func (pr *pqRunner) oracleC12(base pqCase, expr string, nodes []promParser.Node,
 	}
 }
 
+// mentionsLabel: `l` occurs syntactically in `node` as a matcher name, a by/without label, an on/ignoring/group_x
+// label, the destination of label_replace/label_join or the label of count_values.
+func mentionsLabel(node promParser.Node, l string) bool {
+	return anyNode(node, func(n promParser.Node) bool {
+		switch x := n.(type) {
+		case *promParser.VectorSelector:
+			for _, m := range x.LabelMatchers {
+				if m.Name == l {
+					return true
+				}
+			}
+		case *promParser.AggregateExpr:
+			if contains(x.Grouping, l) {
+				return true
+			}
+			if p, ok := x.Param.(*promParser.StringLiteral); ok && x.Op == promParser.COUNT_VALUES && p.Val == l {
+				return true
+			}
+		case *promParser.BinaryExpr:
+			if x.VectorMatching != nil && (contains(x.VectorMatching.MatchingLabels, l) || contains(x.VectorMatching.Include, l)) {
+				return true
+			}
+		case *promParser.Call:
+			if (x.Func.Name == "label_replace" || x.Func.Name == "label_join") && len(x.Args) > 1 {
+				if p, ok := x.Args[1].(*promParser.StringLiteral); ok && p.Val == l {
+					return true
+				}
+			}
+		}
+		return false
+	})
+}
+
+// k3Label: the class predicate of known finding K3 for one join verdict of operation `b` on label `l`: the "many"
+// side is not guaranteed to carry `l` (complement of the guard of C12_join_partial) AND `l` is a real label name
+// written somewhere in the operation (the mechanisms of K3 -- on()/group_x labels included, selector labels
+// re-guaranteed -- only ever introduce labels of the query text; a verdict naming any other label, e.g. the empty
+// name left behind by an in-place slice deletion, is outside the class).
+func k3Label(b *promParser.BinaryExpr, many promParser.Node, l string) bool {
+	return l != "" && !mustHave(many, l) && mentionsLabel(b, l)
+}
+
 // k3Node: some join verdict inside `node` rests on a label the "many" side is not guaranteed to carry.
 func (pr *pqRunner) k3Node(expr string, node promParser.Node) bool {
 	return anyNode(node, func(n promParser.Node) bool {
@@ -690,7 +732,7 @@ func (pr *pqRunner) k3Node(expr string, node promParser.Node) bool {
 				continue
 			}
 			for _, j := range own[len(own)-k:] {
-				if l, ok := deadLabel(j.Src); ok && !mustHave(many, l) {
+				if l, ok := deadLabel(j.Src); ok && k3Label(b, many, l) {
 					return true
 				}
 			}
@@ -739,6 +781,8 @@ func runPromql(prop string, args []string) int {
 			exprs = append(exprs, e)
 		}
 	}
+	// small strata around the label bookkeeping of parseAggregation / parseBinOps: always complete
+	exprs = append(exprs, pqSystematicAlways()...)
 	rep.Histogram["expr:systematic"] = len(exprs) - len(corpusLines(prop))
 	ncorpus := len(exprs)
 	for len(exprs) < ncorpus+n {
